@@ -77,8 +77,10 @@ class MNF:
     # ------------------------------------------------------------------ transposition
     def tr_factor(self, f):
         k = f[0]
-        if k in ("I", "D", "V"):
+        if k in ("I", "D", "V", "P"):
             return f
+        if k == "O":
+            raise Inconclusive("MNF: transpose of an uninterpreted operation")
         if k == "A":
             if f[1] in self.vectors or f[1] in self.symmetric:
                 return f
@@ -113,6 +115,10 @@ class MNF:
     def atom(self, t):
         return {(("A", t, False),): Fraction(1)}
 
+    def opaque(self, t):
+        """result of an operation the algebra does not interpret: an atom whose relation to others is unknown"""
+        return {(("O", t),): Fraction(1)}
+
     def block(self, base, r, c):
         rk, ck = self.idx_key(r), self.idx_key(c)
         if rk == "ALL" and ck == "ALL":
@@ -142,12 +148,16 @@ class MNF:
                 l, r = self.nf(t[2]), self.nf(t[3])
                 if set(l) <= {()} or set(r) <= {()}:
                     return mul(l, r)
-                raise Inconclusive("MNF: elementwise product %s" % fmt(t)[:60])
+                return self.opaque(t)
             if op == "/":
                 r = self.nf(t[3])
                 if set(r) == {()}:
                     return {m: c / r[()] for m, c in self.nf(t[2]).items()}
-            raise Inconclusive("MNF: operator %s" % op)
+            if op == "**" and is_const(t[3]) and isinstance(t[3][1], (int, float)) and not isinstance(t[3][1], bool):
+                if t[3][1] == 1:
+                    return self.nf(t[2])
+                return {(("P", key(self.nf(t[2])), repr(t[3][1])),): Fraction(1)}
+            return self.opaque(t)
         if k == "unop" and t[1] == "neg":
             return {m: -c for m, c in self.nf(t[2]).items()}
         if k == "attr" and t[2] == "T":
@@ -169,7 +179,9 @@ class MNF:
             if d in ORDER_KEEPING and len(a) == 1:
                 v = self.nf(a[0])
                 return v
-            return self.atom(t)
+            if d == "numpy.sqrt" and len(a) == 1:
+                return {(("P", key(self.nf(a[0])), "0.5"),): Fraction(1)}
+            return self.opaque(t)
         if k == "method":
             if t[2] == "dot" and len(t[3]) == 1:
                 return mul(self.nf(t[1]), self.nf(t[3][0]))
@@ -177,7 +189,9 @@ class MNF:
                 return self.nf(t[1])
             if t[2] == "transpose" and not t[3]:
                 return self.transpose(self.nf(t[1]))
-            return self.atom(t)
+            if t[2] == "astype" and t[3] and t[3][0] in (("extref", "float"), ("extref", "numpy.float64")):
+                return self.nf(t[1])
+            return self.opaque(t)
         if k == "sub":
             return self.subscript(t)
         if k == "default":
@@ -222,6 +236,10 @@ def show(nf):
             return "diag(%s)" % show(dict(f[1]))
         if k == "inv":
             return "inv(%s)" % show(dict(f[1]))
+        if k == "P":
+            return "(%s)**%s" % (show(dict(f[1])), f[2])
+        if k == "O":
+            return "?" + fmt(f[1])[:40]
         return repr(f)
     parts = []
     for m, c in sorted(nf.items(), key=repr):
@@ -242,19 +260,32 @@ def inverse_free(nf):
     return not any(f[0] == "inv" for m in nf for f in m)
 
 
+def has_opaque(nf):
+    def rec(f):
+        if f[0] == "O":
+            return True
+        if f[0] in ("inv", "D", "P"):
+            return any(rec(g) for m, _ in f[1] for g in m)
+        return False
+    return any(rec(f) for m in nf for f in m)
+
+
+def inv_atoms(nf):
+    return {f for m in nf for f in m if f[0] == "inv"}
+
+
 def compare(a, b):
-    """-> 'equal' | 'different' | 'inconclusive' (different inverse structure)"""
+    """-> 'equal' | 'different' (the comparison is complete) | 'undecided'"""
     if key(a) == key(b):
         return "equal"
-
-    def invs(nf):
-        return sorted(repr(f) for m in nf for f in m if f[0] == "inv")
+    if has_opaque(a) or has_opaque(b):
+        return "undecided"
     if inverse_free(a) and inverse_free(b):
         return "different"
-    # same inverse atoms: the polynomials around them are comparable
-    if {f for m in a for f in m if f[0] == "inv"} == {f for m in b for f in m if f[0] == "inv"}:
+    # same inverse atoms: they act as free symbols and the polynomials around them are comparable
+    if inv_atoms(a) == inv_atoms(b):
         return "different"
-    return "different-inverse-structure"
+    return "undecided"
 
 
 # ---------------------------------------------------------------------------- reference builders
